@@ -263,6 +263,62 @@ def make_wsgi(rules, flavour, N):
     return q
 
 
+def make_wsgi_late(rules, late, flavour, N):
+    """a long-lived application: the request path is served once, THEN rule number `late` is registered (and the
+    handler of rule 0 re-registered with overwrite=True), then the same path is requested again: the second answer must
+    be the one of the final rule set (nothing remembered from the first resolution may survive the edit)"""
+    built0 = Built(rules, flavour)
+
+    def q(path: str):
+        assume(len(path) <= N)
+        for ch in path:
+            assume(ord(ch) < 128)
+        app = ombott.Ombott()
+        for code in (404, 405):
+            app.error_handlers[code] = lambda e: "err"
+        seen = []
+
+        def handler_for(idx, gen):
+            def h(**kw):
+                seen.append((idx, gen, kw))
+                return "ok"
+            return h
+        for spec, meth, idx in built0.accepted:
+            if idx != late:
+                app.route(render(spec, flavour), method=meth, callback=handler_for(idx, 0))
+
+        def get():
+            status = []
+            env = {"REQUEST_METHOD": GET, "PATH_INFO": "/" + path, "wsgi.errors": None, "SERVER_NAME": "h",
+                   "SERVER_PORT": "80", "wsgi.url_scheme": "http"}
+            b"".join(app(env, lambda s, h, e=None: status.append(s)))
+            return status[0][:3]
+        get()
+        del seen[:]
+        for spec, meth, idx in built0.accepted:
+            if idx == late:
+                app.route(render(spec, flavour), method=meth, callback=handler_for(idx, 1))
+        spec0, meth0, idx0 = built0.accepted[0]
+        app.route(render(spec0, flavour), method=meth0, callback=handler_for(idx0, 1), overwrite=True)
+        code = get()
+        want = oracle(built0, "/" + path, GET, True)
+        alt = oracle(built0, "/" + path, GET, False)
+        for o in (want, alt):
+            if o[0] == "undetermined":
+                return None
+            if o[0] == "ok" and code == "200" and len(seen) == 1 and same(("ok", seen[0][0], seen[0][2]), o):
+                if seen[0][0] in (late, idx0) and seen[0][1] != 1:
+                    return "PATH_INFO %r after the edit: the handler registered BEFORE the edit ran (rule %d)" % ("/" + path, seen[0][0])
+                cover("200-late" if seen[0][0] == late else "200")
+                return None
+            if o[0] in ("404", "405") and code == o[0] and not seen:
+                cover(code)
+                return None
+        return "PATH_INFO %r requested again after registering %r: status %s handler calls %r, reference %r" % (
+            "/" + path, built0.rendered[late], code, seen, want)
+    return q
+
+
 def queries(tier):
     T = tier == "thorough"
     out = []
@@ -292,6 +348,12 @@ def queries(tier):
         out.append(Q("wsgi/%s" % tag, make_wsgi(rules, 1, 4 if not T else 5),
                      "Ombott.__call__ GET, kwargs recorded by the handlers; PATH_INFO '/'+p, |p| <= %d, code points < 128" % (4 if not T else 5),
                      timeout=200 if not T else 600, family="wsgi"))
+    for tag, late in ((("backtrack", 1), ("root-wild", 1)) if not T else (("backtrack", 1), ("backtrack", 3), ("root-wild", 1), ("path", 2))):
+        rules = next(rs for t, rs, _ in HAND if t == tag)
+        out.append(Q("wsgi-late/%s/r%d" % (tag, late), make_wsgi_late(rules, late, 1, 4 if not T else 5),
+                     "Ombott.__call__ GET on one long-lived application: path requested, then rule %d of set %r registered and "
+                     "rule 0 re-registered with overwrite, then the same path again; PATH_INFO '/'+p, |p| <= %d, code points < 128"
+                     % (late, tag, 4 if not T else 5), timeout=200 if not T else 600, expect_cover=["200-late"], family="wsgi-late"))
     return out
 
 
